@@ -210,6 +210,7 @@ func (c c03case) run(ban bool) (compileErr, execErr error, out string, fetches i
 }
 
 func suiteC03Routes(cfg Config, res *Result) {
+	defer bytesBelongToCaller(res, "ban", "c03-bytes-owner")
 	defer c03Replace(res)
 	defer c03Twins(res)
 	res.Rule = "every registered filter and tag (from the VerifRegistered* hooks, plus a probe filter and a probe tag that count their invocations) as ban target x syntactic routes (26 expression positions / 9 nestings) x file-composition routes (same file, include, nested include, lazy include, extends parent, child block, imported macro, ssi parsed; for the probes also with the files present on the real file system under absolute names, so that a sub-template compiled outside its set would be found); oracle: with the ban the use fails to compile (lazy include: to execute), the probes never run, an include of a banned 'include' fetches nothing; without the ban, in another set, the same source works through every route it works in when written directly; a source not using the name renders the same with and without the ban; non-trivial = all; distinct by (target, route)"
